@@ -182,6 +182,24 @@ CHECKS = {
             fuzz("FuzzC18Parse", 60),
         ],
     ),
+    "C07": dict(
+        level="exploration",
+        rule="(a) min-rule: ALL replica tables of 1..4 copies over the alphabet {absent, never-reported (0,0), 3 vbUUIDs x seqnos {0,1,2,7,2^40,"
+             "2^64-1}} enumerated through the real getMinSeqNo against the rule written from the statement (all absent -> 0, vbUUID disagreement "
+             "among present copies -> 0, else minimum), plus rapid tables with full-range seqnos; (b) gate: real observer with mitigation enabled "
+             "(poll 1 ms), a feeder goroutine (plays gocbcore's read loop, blocks in the gate) vs. a generated sequence of threshold reports (any "
+             "order, repeats, zeros, decreasing, pauses 0..1.5 ms) and an optional Close at a generated point: an event reaches the listener only "
+             "if a non-zero threshold >= its seqno had been issued before (Lamport-style: max issued is published before the call), the threshold "
+             "never decreases and equals the max, every covered event is delivered within 2 s (no lost wake-up), Close releases waiters without "
+             "delivery; (c) integration on a 3-node simulated cluster with the real rollbackMitigation polling OBSERVE_SEQNO: an event is consumed "
+             "only after every listed copy replied persist >= seq under one vbUUID. non-trivial = (a) >=2 present copies, (b) an event that had to "
+             "wait, (c) a lagging replica or vbUUID disagreement window",
+        assumptions=["(b),(c) use real time: bounds are >= 400x the poll interval; the harness publishes 'max issued' before calling SetPersistSeqNo, so the check is a necessary condition and cannot false-alarm on scheduling",
+                     "simnode's OBSERVE_SEQNO / cluster-map handling is the trusted server model"],
+        units=[enum("TestC07_MinRuleExhaustive", 8, 16), rapid("TestC07_MinRuleRapid", 20000, 2000000), rapid("TestC07_Gate", 600, 40000, 8, 16),
+               rapid("TestC07_Integration", 48, 3000, 8, 16, shrinktime="20s")],
+        min_share=dict(any={"event_had_to_wait": ["gate_cases", 0.3], "closed_mid_run": ["gate_cases", 0.1]}),
+    ),
     "C08": dict(
         level="exploration",
         rule="rapid on Layer B (real client.go over gocbcore on the simulated node + real stream/checkpoint/observer): failover logs of 1..6 entries "
